@@ -8,6 +8,7 @@ type RecT struct {
 	FailNows int
 	Cleanups []func()
 	Logs     int
+	failed   bool
 }
 
 type failNowSentinel struct{}
@@ -24,3 +25,8 @@ func (t *RecT) FailNow()         { t.FailNows++; panic(failNowSentinel{}) }
 func (t *RecT) Cleanup(f func()) { t.Cleanups = append(t.Cleanups, f) }
 func (t *RecT) Helper()          {}
 func (t *RecT) Name() string     { return "msim" }
+
+// Failed and Fail make RecT look like *testing.T to code that asks (through an interface
+// assertion) whether the test has already failed.
+func (t *RecT) Failed() bool { return len(t.Errors) > 0 || t.FailNows > 0 || t.failed }
+func (t *RecT) Fail()        { t.failed = true }
